@@ -5,7 +5,7 @@ from tlc import *
 from engine import *
 from engine import MUTATING
 
-STORE_INVS = ['InvIndexExact', 'InvIndexChrono', 'InvKeyData', 'InvNoDangling', 'InvIdMap', 'InvTsel', 'InvTombs']
+STORE_INVS = ['InvIndexExact', 'InvIndexChrono', 'InvKeyData', 'InvNoDangling', 'InvIdMap', 'InvTsel', 'InvTombs', 'InvProtected']
 
 STORE_ASSUMPTIONS = [
     'TLC, SANY and the CommunityModules Json/IOUtils overrides are trusted',
@@ -25,12 +25,12 @@ def mc_job(name, scenario, size='s', maxanns=3, maxres=1, prelude=0, workers=8, 
 
 
 def gen_job(name, scenario, prelude, depth=None, simulate=None, simdepth=None, size='s', style=0, reads=(), env=None,
-            per_state=None, sample_mod=1, roundtrips=None, **kw):
+            per_state=None, sample_mod=1, roundtrips=None, validation=False, **kw):
     c = dict(Scenario=scenario, Prelude=prelude, Size=size, Reads=list(reads))
     c.update(kw)
     return dict(kind='store_gen', name=name, constants=c, depth=depth, simulate=simulate, simdepth=simdepth, style=style,
                 env=env or {}, per_state=(bool(reads) and not simulate) if per_state is None else per_state, sample_mod=sample_mod,
-                roundtrips=roundtrips)
+                roundtrips=roundtrips, validation=validation)
 
 
 def cfg_env(milestone=None, shrink=False):
@@ -193,8 +193,39 @@ def textop_jobs(tier, seed):
     return jobs
 
 
-def RT(fmt, layout='file', compact=False):
-    return dict(format=fmt, layout=layout, compact=compact)
+NO_EDIT = dict(has=False, res=0, kind='', pos=0, c=0)
+
+
+def RT(fmt, layout='file', compact=False, edit=None):
+    return dict(format=fmt, layout=layout, compact=compact, edit=edit or NO_EDIT)
+
+
+def validation_variants(behs, seed):
+    """C18: every behaviour is followed by Validate; a JSON round trip with stand-off text files; Validate; a second
+    round trip during which one character of a text file is substituted, inserted or deleted; Validate."""
+    edits = [dict(has=True, res=r, kind=k, pos=p, c=71) for r in (1, 2) for k in ('sub', 'ins', 'del') for p in (0, 1, 2, 3, 4, 5, 8, 9, 20, 43)]
+    out = []
+    val = {'ev': 'Validate', 'a': {'x': 0}}
+    step = max(1, len(behs) // 1200)          # cap the number of histories (every step-th one is kept)
+    for i, b in enumerate(behs[::step]):
+        muts = [o for o in json.loads(b) if o['ev'] in MUTATING]
+        for j in range(3):
+            e = edits[(i * 3 + j + seed) % len(edits)]
+            out.append(json.dumps(muts + [val, {'ev': 'RoundTrip', 'a': RT('json', 'resources')}, val,
+                                          {'ev': 'RoundTrip', 'a': RT('json', 'resources', edit=e)}, val]))
+    return out
+
+
+def validation_jobs(tier, seed):
+    style = seed % 5
+    quick = tier == 'quick'
+    big = dict(MaxAnns=12, MaxRes=3, MaxData=10, MaxSets=2, MaxKeys=4)
+    jobs = [mc_job('mc_protect', 'protect', maxanns=12, maxres=2, prelude=11, MaxData=10, MaxSets=2, MaxKeys=4),
+            gen_job('protect_p11', 'protect', 11, depth=2, style=style, validation=True, **big),
+            gen_job('protect_p6', 'protect', 6, depth=1, style=(style + 1) % 5, validation=True, **big),
+            gen_job('protect_all_p2', 'all', 2, depth=2 if quick else 3, style=style, validation=True, **big),
+            gen_job('protect_sim', 'all', 1, simulate=20 if quick else 200, simdepth=7, size='m', style=(style + 2) % 5, validation=True, **big)]
+    return jobs
 
 
 JSON_RTS = [RT('json', 'string'), RT('json', 'string', True), RT('json', 'file'), RT('json', 'resources'), RT('json', 'datasets'),
@@ -246,6 +277,10 @@ def plan_for(prop, tier, seed, replay_file=None):
     if prop in ('C05', 'C11', 'C15'):
         return dict(jobs=roundtrip_jobs(prop, tier, seed), rule=STORE_RULE + '; every history is extended with serialisation round trips '
                     'after which it continues on the reloaded store', assumptions=STORE_ASSUMPTIONS)
+    if prop == 'C18':
+        return dict(jobs=validation_jobs(tier, seed), rule=STORE_RULE + '; every history is followed by validate, a round trip with '
+                    'stand-off text files, validate, a round trip during which one character of a text file is edited, validate',
+                    assumptions=STORE_ASSUMPTIONS)
     if prop == 'C13':
         return dict(jobs=relations_jobs(tier, seed), rule=TABLE_RULE, assumptions=STORE_ASSUMPTIONS, laws='relations')
     if prop == 'C06':
@@ -279,6 +314,8 @@ def run_job(job, prop, tier, seed):
                            per_state=job.get('per_state', False), sample_mod=job.get('sample_mod', 1))
         if not behs:
             raise ToolError(f'generator {job["name"]} produced no behaviours')
+        if job.get('validation'):
+            behs = validation_variants(behs, seed)
         if job.get('roundtrips'):
             behs = insert_roundtrips(behs, job['roundtrips'], seed)
         trace = replay(job['name'], behs, style=job.get('style', 0), extra_env=job.get('env'))
